@@ -20,6 +20,12 @@ def extra(tier, seed, rng, res, broken):
         A = ''.join('a' if i == cs else 'n' for i in range(30)); B = ''.join(other if i == cs else 'n' for i in range(30))
         base = 'pre: new 20 %sh- , new 21 %sh- | @20 hit %d | @21 hit %d , hit %d' % (A, B, cs, cs, cs)
         cases += [base + ' ;; ' + s for s in _c04.preemption_schedules(2, [9, 9], 2 if (tier == 'quick' and not broken) else 3)]
+    # two threads hit two DIFFERENT callsites for the first time together (both inside `register` under the shared read lock,
+    # both pushing onto the lock-free callsite list), then a collector that wants both is created: a callsite that fell off the
+    # list keeps its first verdict for ever.  Every schedule of the two pushes with few preemptions
+    both = ''.join('a' if i in (0, 13) else 'n' for i in range(30))
+    base2 = 'pre: new 20 %sh- | hit 0 | hit 13 | new 1 %sh-' % (N, both)
+    cases += [base2 + ' ;; ' + s + '2222' for s in _c04.preemption_schedules(2, [8, 8], 2 if (tier == 'quick' and not broken) else 3)]
     cases += [_c04.gen_scenario(rng) for _ in range(40 if (tier == 'quick' and not broken) else 600)]
     outs, err = M.run_per_process([M.bin_path('h_race')], cases, timeout=30)
     if err:
